@@ -269,6 +269,20 @@ def extreme_bound_history(rng, kind):
     return ops
 
 
+def awkward_history(rng, kind):
+    """Ratios that are not simple fractions (arbitrary doubles) and chunk sizes that are not round numbers, over
+    a hundred or more calls: rounding of positions, needed sizes and ramps that is exact for textbook ratios."""
+    x = rng.choice([1.000123, 0.7071067811865476, 3.14159, 0.3333333, 1.0594630943592953, 0.9999, 2.0000001,
+                    rng.uniform(0.1, 8.0), rng.uniform(0.9, 1.1)])
+    over = {"r": {"bits": bits(x)}, "maxrel": rj(rng.choice([Fraction(1), Fraction(11, 10), Fraction(2)])), "ch": 1,
+            "chunk": rng.choice([37, 441, 999, 1000, 1023, 63, 129, 17])}
+    if kind.startswith("Sinc"):
+        over.update({"L": rng.choice([8, 16, 64]), "F": rng.choice([2, 16, 128, 100])})
+    if kind.endswith("Out") and over["chunk"] / x > 20000:
+        over["chunk"] = 37
+    return valid_history(rng, kind, rng.choice([60, 120, 250]), allow=rng.choice([(), ("ratio", "ramp"), ("via",)]), **over)
+
+
 def long_history(rng, kind):
     """Hundreds of calls at a constant configuration with small chunks: whatever accumulates, wraps or depends
     on a slowly drifting phase / on one residue of a counter (an FFT resampler's parked frames run through every
